@@ -61,6 +61,8 @@ def candidates(m, rng):
         (([(a, b, {"t": [[2, 5]]})],), {}), (([(fr, fr2, {"t": [[2, 5]]})],), {}),
         ((), {"edges": [(fr, fr2, {"t": [[0, 0]]})]}), (([(fr, fr2, [[2, 5]])],), {"weight": "t"}),
         ((a, fr), {"t": [[1, 3]]}),
+        # bunches that yield nothing
+        (([],), {}), ((iter(()),), {}), ((), {"edges": []}), ((), {"edges": [], "nodes": []}),
     ]
     return c
 
@@ -129,8 +131,12 @@ def post_audit(ctx, dn, G, m, detail):
         guarded(ctx, "other:audit", audit.audit_all, ctx, dn, G, h, "other:", ("C01", "C04", "C05"))
 
 
+RETURNED = []        # graphs handed back by the last call (copies, conversions, views)
+
+
 def invoke(G, name, args, kw):
     attr = getattr(G, name)
+    del RETURNED[:]
     if not callable(attr):
         return "property", None
     try:
@@ -139,6 +145,10 @@ def invoke(G, name, args, kw):
         if hasattr(r, "__next__"):
             for _ in zip(range(50), r):
                 pass
+        # independent graphs only: networkx views (reverse(copy=False), to_directed(as_view=True), subgraph...) share
+        # the receiver's tables by design and are documented read-only (DESIGN.md 4.9)
+        if hasattr(r, "add_interaction") and r is not G and getattr(r, "_graph", None) is None:
+            RETURNED.append(r)
         return "returned", None
     except Exception as ex:
         return type(ex).__name__, ex
@@ -148,7 +158,7 @@ def is_blocked_call(name, args, kw, directed):
     if name in BLOCKED or (directed and name in BLOCKED_DI):
         return True
     if name == "update":
-        return bool(kw.get("edges")) or (len(args) >= 1 and args[0] is not None)
+        return kw.get("edges") is not None or (len(args) >= 1 and args[0] is not None)
     return False
 
 
@@ -179,7 +189,7 @@ def enumerate_api(ctx, dn, prog, m, directed, cands, names):
                         mm.nodes[n_] = {}
                 okk = True
                 for op in prog:
-                    if op[0] == "node":
+                    if op[0] in ("node", "nodes_from"):
                         continue
                     sh = tuple(op)
                     if op[0] == "add":
@@ -207,6 +217,15 @@ def enumerate_api(ctx, dn, prog, m, directed, cands, names):
                 ctx.expect("blocked:no-trace", d, [], dict(detail, differing=d))
             else:
                 post_audit(ctx, dn, T, m, detail)
+                for R in list(RETURNED):
+                    # a graph handed back by the call (copy, conversion...) is updated: the receiver must not move
+                    try:
+                        from .c16 import grow
+                        grow(ctx, R)
+                    except Exception:
+                        continue        # views and frozen results refuse updates: nothing to check
+                    ctx.cell("returned-graph-updated:" + name)
+                    post_audit(ctx, dn, T, m, dict(detail, after="the returned graph received add_interaction calls"))
             ctx.nontrivial(m.state_key(), name, shape(args, kw))
     # the module-level blocked helpers
     for fn, a in ((dn.set_edge_attributes, (1, "w")), (dn.get_edge_attributes, (rebuild(dn, prog, directed), "w"))):
